@@ -101,6 +101,7 @@ structure World where
   k : Nat := 0
   failAt : Option Nat := none
   maxInc : Nat := 10
+  cwd : Bytes := []
 deriving Inhabited
 
 /-- type of the first declaration with this name anywhere in the schema -/
@@ -142,9 +143,20 @@ def mkOracle (w : World) : Oracle := fun k call =>
   | .func _ args => if failNow || args.head? == some [102, 97, 105, 108] then .fail else .ok
   | .free _ => .ok
 
+/-- split at '/' -/
+def splitSlash (p : Bytes) : List Bytes :=
+  (p.foldr (fun c acc => if c == c_slash then [] :: acc else match acc with | a :: as => (c :: a) :: as | [] => [[c]]) [[]])
+
+/-- the file the kernel would open for `p`: relative names start at the case's working directory,
+empty and "." segments vanish (".." is never generated) -/
+def normPath (cwd p : Bytes) : Bytes :=
+  let full := if p.head? == some c_slash then p else cwd ++ [c_slash] ++ p
+  let segs := (splitSlash full).filter (fun s => !s.isEmpty && s != [46])
+  segs.foldl (fun acc s => acc ++ [c_slash] ++ s) []
+
 def mkPEnv (w : World) (dirs : List Bytes) : PEnv :=
   { env := fun n => if n.isEmpty || n.contains c_eq then none else (w.env.find? (·.1 == n)).map (·.2),
-    fs := fun p => (w.files.find? (·.1 == p)).map (fun e => (e.2.1, e.2.2)),
+    fs := fun p => if p.isEmpty then none else (w.files.find? (·.1 == normPath w.cwd p)).map (fun e => (e.2.1, e.2.2)),
     passwd := fun u => (w.passwd.find? (·.1 == u)).map (·.2),
     maxInc := w.maxInc, dirs := dirs }
 
@@ -244,14 +256,20 @@ def step (w : World) (ws : List String) : World × List String :=
     let env' := w.env.filter (·.1 != name)
     ({ w with env := match optOfHex v with | some b => (name, b) :: env' | none => env' }, [])
   | ["FILE", p, kind, content] =>
-    ({ w with files := (bytesOfHex p, (if kind == "dir" then FileKind.dir else FileKind.reg), bytesOfHex content) :: w.files }, [])
+    -- creating a file also creates its parent directories
+    let path := normPath w.cwd (bytesOfHex p)
+    let segs := (splitSlash path).filter (fun s => !s.isEmpty)
+    let parents := (List.range segs.length).filterMap (fun k =>
+      if k == 0 then none else some ((segs.take k).foldl (fun acc s => acc ++ [c_slash] ++ s) [], FileKind.dir, ([] : Bytes)))
+    let newParents := parents.filter (fun e => !(w.files.any (·.1 == e.1)))
+    ({ w with files := (path, (if kind == "dir" then FileKind.dir else FileKind.reg), bytesOfHex content) :: (newParents ++ w.files) }, [])
   | ["PW", u, h] =>
     (match optOfHex h with
      | some home => ({ w with passwd := (optOfHex u, home) :: w.passwd }, [])
      | none => (w, []))
   | ["FAILAT", k] => ({ w with failAt := if k == "-" then none else some k.toNat! }, [])
   | ["ERRNO", _] => (w, [])       -- the model has no errno: the outcome does not depend on it
-  | ["CWD", _] => (w, [])
+  | ["CWD", d] => ({ w with cwd := bytesOfHex d }, [])
   | ["MAXINC", n] => ({ w with maxInc := n.toNat! }, [])
   | ["X", c, fl] =>
     let cfg := cfgInit w.decls (Flags.ofNat fl.toNat!)
